@@ -16,13 +16,22 @@ class Inconclusive(Exception):
 
 
 class HintExec:
-    def __init__(self, ctx, body, main_locs, old_locs, old_edges=None, max_paths=300, init_env=None, polled0=False):
+    def __init__(self, ctx, body, main_locs, old_locs, old_edges=None, max_paths=300, init_env=None, polled0=False, main_vals=None, old_vals=None):
         self.ctx, self.b = ctx, body
-        self.main_locs, self.old_locs = set(main_locs), set(old_locs)
+        hint_m = ("tuple", (("sum", ("M0",)), ("sum", ("M1",))))
+        hint_o = ("tuple", (("sum", ("O0",)), ("sum", ("O1",))))
+        # (body path, block of the call) -> value the call produces
+        self.main_vals = dict(main_vals or {})
+        self.old_vals = dict(old_vals or {})
+        for l in main_locs:
+            self.main_vals[(body.path, l.bb)] = hint_m
+        for l in old_locs:
+            self.old_vals[(body.path, l.bb)] = hint_o
         self.old_edges = old_edges or {}
         self.max_paths = max_paths
         self.results = []      # (ret value, polled_old, crossed {N,S}, path)
         self.depth = 0
+        self.polled_in_closure = False
         self.init_env = dict(init_env or {})
         self.polled0 = polled0
 
@@ -31,9 +40,24 @@ class HintExec:
         v = env.get((self.depth if depth is None else depth, local), UNK)
         return self._proj(env, v, list(proj))
 
+    @staticmethod
+    def norm(env, v):
+        """an Option-valued atom under the assumption made about it on this path"""
+        if isinstance(v, tuple) and v and v[0] == "opt":
+            a = env.get(("A", v[1]))
+            if a == "some":
+                return ("val", v[1])
+            if a == "none":
+                return NONE
+        return v
+
     def _proj(self, env, v, proj):
         for i, e in enumerate(proj):
             k = e["k"]
+            v = self.norm(env, v)
+            if isinstance(v, tuple) and v and v[0] == "opt" and k == "field" and (e.get("adt") == "core::option::Option" or (i > 0 and proj[i - 1]["k"] == "downcast")):
+                v = ("val", v[1])          # the payload, on a path where the atom is Some
+                continue
             if isinstance(v, tuple) and v and v[0] == "ref":
                 if k == "deref":
                     v = self.read(env, v[2], v[3], v[1])
@@ -137,9 +161,11 @@ class HintExec:
                 return NONE if r.get("variant") == "None" else self.op(env, r["ops"][0])
             if r.get("agg") == "closure":
                 return ("clo", r["def"], tuple(self.op(env, o) for o in r["ops"]))
+            if r.get("adt") == self.ctx.roles.B:
+                return self.op(env, r["ops"][self.ctx.roles.B_bucket])     # a located bucket is its raw bucket (the label is K-new's business)
             return UNK
         if k == "discr":
-            return ("discr", self.read(env, r["place"]["local"], r["place"]["proj"]))
+            return ("discr", self.norm(env, self.read(env, r["place"]["local"], r["place"]["proj"])))
         if k == "cast":
             return self.op(env, r["op"])
         return UNK
@@ -161,48 +187,75 @@ class HintExec:
             if st["k"] == "assign":
                 pl = st["place"]
                 self.write(env, pl["local"], pl["proj"], self.rv(env, st["rv"]))
+        self._term(b, bb, env, polled, crossed, path, top, out)
+
+    def _fork(self, X, b, bb, env, polled, crossed, path, top, out):
+        for a in ("some", "none"):
+            e2 = dict(env)
+            e2[("A", X)] = a
+            self._term(b, bb, e2, polled, crossed, path, top, out)
+
+    def _call_closure(self, f, params, env, polled, crossed):
+        cb = self.ctx.facts.by_dpath.get(f[1])
+        if cb is None:
+            raise Inconclusive("closure body missing")
+        outs = []
+        env2 = dict(env)
+        self.depth += 1
+        env2[(self.depth, 1)] = f
+        for i, x in enumerate(params):
+            env2[(self.depth, 2 + i)] = x
+        try:
+            self._walk(cb, 0, env2, polled, crossed, [0], top=False, out=outs)
+        finally:
+            self.depth -= 1
+        outs = [o for i, o in enumerate(outs) if o not in outs[:i]]
+        if len(outs) != 1:
+            raise Inconclusive("closure with several results")
+        return outs[0]
+
+    def _term(self, b, bb, env, polled, crossed, path, top, out):
         t = b.term(bb)
         k = t["k"]
         if k == "return":
             if top:
-                self.results.append((env.get((0, 0), UNK), polled, crossed, path))
+                self.results.append((self.norm(env, env.get((0, 0), UNK)), polled, crossed, path, {kk[1]: v for kk, v in env.items() if kk[0] == "A"}))
             else:
-                out.append(env.get((self.depth, 0), UNK))
+                out.append(self.norm(env, env.get((self.depth, 0), UNK)))
             return
         if k in ("goto", "assert", "drop"):
             nxt = [t["target"]]
         elif k == "call":
             c = self.ctx.call_at(b, bb)
             val = UNK
-            if top and c.loc in self.main_locs:
-                val = ("tuple", (("sum", ("M0",)), ("sum", ("M1",))))
-            elif top and c.loc in self.old_locs:
-                val = ("tuple", (("sum", ("O0",)), ("sum", ("O1",))))
+            site = (b.path, bb)
+            if site in self.main_vals:
+                val = self.main_vals[site]
+            elif site in self.old_vals:
+                val = self.old_vals[site]
                 polled = True
+                self.polled_in_closure = True
             elif c.name in (OPT + "as_ref", OPT + "as_mut", OPT + "as_deref") and c.args:
                 val = self.op(env, c.args[0])
-            elif c.name == OPT + "map" and len(c.args) == 2:
-                x = self.op(env, c.args[0])
+            elif c.name in (OPT + "map", OPT + "and_then", OPT + "or", OPT + "or_else") and len(c.args) == 2:
+                x = self.norm(env, self.op(env, c.args[0]))
+                if isinstance(x, tuple) and x and x[0] == "opt":
+                    return self._fork(x[1], b, bb, env, polled, crossed, path, top, out)
                 f = self.op(env, c.args[1])
-                if x == NONE:
-                    val = NONE
-                elif isinstance(f, tuple) and f and f[0] == "clo":
-                    cb = self.ctx.facts.by_dpath.get(f[1])
-                    if cb is None:
-                        raise Inconclusive("closure body missing")
-                    outs = []
-                    env2 = dict(env)
-                    self.depth += 1
-                    env2[(self.depth, 1)] = f
-                    env2[(self.depth, 2)] = x
-                    try:
-                        self._walk(cb, 0, env2, polled, crossed, [0], top=False, out=outs)
-                    finally:
-                        self.depth -= 1
-                    outs = [o for i, o in enumerate(outs) if o not in outs[:i]]
-                    if len(outs) != 1:
-                        raise Inconclusive("closure with several results")
-                    val = outs[0]
+                kind = c.name[len(OPT):]
+                if kind in ("map", "and_then"):
+                    if x == NONE:
+                        val = NONE
+                    elif x != UNK and isinstance(f, tuple) and f and f[0] == "clo":
+                        val = self._call_closure(f, [x], env, polled, crossed)
+                elif kind == "or":
+                    val = self.norm(env, f) if x == NONE else x
+                else:
+                    if x == NONE:
+                        if isinstance(f, tuple) and f and f[0] == "clo":
+                            val = self._call_closure(f, [], env, polled, crossed)
+                    else:
+                        val = x
             if t.get("dest") is not None:
                 self.write(env, t["dest"]["local"], t["dest"]["proj"], val)
             if t.get("target") is None:
@@ -212,9 +265,14 @@ class HintExec:
             d = self.op(env, t["discr"]) if t["discr"]["k"] != "const" else UNK
             nxt = [tb for _, tb in t["targets"]] + [t["otherwise"]]
             if isinstance(d, tuple) and d and d[0] == "discr":
-                v = d[1]
+                v = self.norm(env, d[1])
+                if isinstance(v, tuple) and v and v[0] == "opt":
+                    return self._fork(v[1], b, bb, env, polled, crossed, path, top, out)
                 if v == NONE:
                     tg = [tb for val, tb in t["targets"] if val == 0]
+                    nxt = tg or [t["otherwise"]]
+                elif isinstance(v, tuple) and v and v[0] == "val":
+                    tg = [tb for val, tb in t["targets"] if val == 1]
                     nxt = tg or [t["otherwise"]]
             nxt = [x for x in dict.fromkeys(nxt) if b.term(x)["k"] != "unreachable"]
         elif k == "unreachable":
